@@ -33,11 +33,11 @@ ASSUMPTIONS = [
     "i.e. also while blocks are still initialising",
 ]
 REQUIRED = {'sends_judged': 300, 'delivered': 100, 'refused': 100, 'name_checks': 100,
-            'phases_seen': 15, 'autoname_checks': 10}
+            'phases_seen': 16, 'autoname_checks': 10}
 SHARDS = {'quick': 4, 'thorough': 16}
 TIMEOUT = {'quick': 300, 'thorough': 3000}
 
-PHASES = ['no_task', 'finalized_no_task', 'task_created', 'run_task_created', 'initialising', 'running', 'abort_requested',
+PHASES = ['no_task', 'finalized_no_task', 'task_created', 'run_task_created', 'start_refused_eager', 'initialising', 'running', 'abort_requested',
           'shutdown_called', 'ctrl_shutdown_requested', 'in_stop',
           'in_stop_async', 'finished_shutdown', 'finished_error', 'finished_ctrl', 'after_sigterm']
 DELIVER = {'initialising', 'running'}
@@ -176,6 +176,21 @@ def run_phase_case(case, ctx):
             await edzed.run(supporting())
             do_send(phase)
             return
+        if phase == 'start_refused_eager':
+            # the start is refused by the pre-flight check (eager task factory, Python 3.12+):
+            # the circuit never ran, an application that survives the RuntimeError and sends an
+            # event must get EdzedInvalidState
+            loop.set_task_factory(asyncio.eager_task_factory)
+            try:
+                await circuit.run_forever()
+            except RuntimeError as err:
+                res['eager_refused'] = 'eager' in str(err)
+            except BaseException as err:    # pylint: disable=broad-except
+                res['eager_refused'] = repr(err)
+            finally:
+                loop.set_task_factory(None)
+            do_send(phase)
+            return
         if phase == 'run_task_created':
             # edzed.run() with a supporting coroutine has created the simulation task, which has
             # not made its first step yet; a task that was already scheduled sends an event
@@ -263,6 +278,8 @@ def judge_phase(case, res, ctx):
     recv = res['recv']
     src = expected_source(shape)
     where = f"phase={phase} dest={destkind} shape={shape}"
+    if phase == 'start_refused_eager' and res.get('eager_refused') is not True:
+        raise core.Violation('harness-phase-not-reached', f"{where}: {res.get('eager_refused')!r}")
     if phase == 'shutdown_called' and res.get('shutdown_called_state') != (False, False):
         raise core.Violation('harness-phase-not-reached', f"{where}: {res.get('shutdown_called_state')}")
     if phase == 'initialising' and res.get('initialising_state') != (True, False):
